@@ -4,6 +4,7 @@
 package eng
 
 import (
+	"verif/internal/engalloc"
 	"verif/internal/engarith"
 	"verif/internal/fw"
 )
@@ -13,4 +14,7 @@ var Registry = map[string]fw.Engine{}
 
 func register(name string, e fw.Engine) { Registry[name] = e }
 
-func init() { register("arith", engarith.Engine) }
+func init() {
+	register("arith", engarith.Engine)
+	register("alloc", engalloc.Engine)
+}
